@@ -12,4 +12,10 @@ pub trait TokenStream {
     fn text(&self, range: Range<usize>) -> &str;
 
     fn take_error(&mut self) -> Option<EcoString>;
+
+    /// Skips text that is not tokenised: the rest of the current line and every following line
+    /// that does not start with `#` (whitespace and block comments may precede it). A disabled
+    /// preprocessor region is skipped this way: its text need not be well-formed TableGen and
+    /// only its directive lines matter.
+    fn skip_lines_until_directive(&mut self);
 }
